@@ -469,6 +469,8 @@ func (t *Table) InsertRow(position int, data []string) error {
 		t.Rows[position] = newRow
 	}
 
+	t.normalizeVerticalMerges()
+
 	Info(fmt.Sprintf("在位置%d插入行成功", position))
 	return nil
 }
@@ -491,6 +493,8 @@ func (t *Table) DeleteRow(rowIndex int) error {
 	// 删除行
 	t.Rows = append(t.Rows[:rowIndex], t.Rows[rowIndex+1:]...)
 
+	t.normalizeVerticalMerges()
+
 	Info(fmt.Sprintf("删除第%d行成功", rowIndex))
 	return nil
 }
@@ -509,8 +513,38 @@ func (t *Table) DeleteRows(startIndex, endIndex int) error {
 	// 删除行范围
 	t.Rows = append(t.Rows[:startIndex], t.Rows[endIndex+1:]...)
 
+	t.normalizeVerticalMerges()
+
 	Info(fmt.Sprintf("删除第%d到%d行成功", startIndex, endIndex))
 	return nil
+}
+
+// normalizeVerticalMerges 在增删行之后修复垂直合并标记：
+// 一个 vMerge=continue 的单元格，如果上一行同一网格列没有跨度相同且处于
+// 合并中的单元格（起始行被删除，或中间插入了新行），就改为新的合并起点。
+func (t *Table) normalizeVerticalMerges() {
+	for i := range t.Rows {
+		for j := range t.Rows[i].Cells {
+			cell := &t.Rows[i].Cells[j]
+			if cell.Properties == nil || cell.Properties.VMerge == nil || cell.Properties.VMerge.Val == "restart" {
+				continue
+			}
+			matched := false
+			if i > 0 {
+				start := t.gridStartOf(i, j)
+				for k := range t.Rows[i-1].Cells {
+					above := &t.Rows[i-1].Cells[k]
+					if t.gridStartOf(i-1, k) == start && above.gridSpanValue() == cell.gridSpanValue() &&
+						above.Properties != nil && above.Properties.VMerge != nil {
+						matched = true
+					}
+				}
+			}
+			if !matched {
+				cell.Properties.VMerge = &VMerge{Val: "restart"}
+			}
+		}
+	}
 }
 
 // InsertColumn 在指定位置插入列
@@ -1122,6 +1156,13 @@ func (t *Table) MergeCellsHorizontal(row, startCol, endCol int) error {
 		return fmt.Errorf("起始列和结束列不能相同")
 	}
 
+	// 参与垂直合并的单元格不能再被水平合并掉，否则上下行的合并区域会错位
+	for col := startCol; col <= endCol; col++ {
+		if props := t.Rows[row].Cells[col].Properties; props != nil && props.VMerge != nil {
+			return fmt.Errorf("单元格(%d,%d)处于垂直合并中，请先取消合并", row, col)
+		}
+	}
+
 	// 设置起始单元格的网格跨度
 	startCell := &t.Rows[row].Cells[startCol]
 	if startCell.Properties == nil {
@@ -1238,6 +1279,13 @@ func (t *Table) MergeCellsRange(startRow, endRow, startCol, endCol int) error {
 	for i := startRow; i <= endRow; i++ {
 		if startCol >= len(t.Rows[i].Cells) || endCol >= len(t.Rows[i].Cells) {
 			return fmt.Errorf("第%d行列索引范围无效：[%d, %d]", i, startCol, endCol)
+		}
+		if startCol != endCol {
+			for col := startCol; col <= endCol; col++ {
+				if props := t.Rows[i].Cells[col].Properties; props != nil && props.VMerge != nil {
+					return fmt.Errorf("单元格(%d,%d)处于垂直合并中，请先取消合并", i, col)
+				}
+			}
 		}
 		if i > startRow && (t.gridStartOf(i, startCol) != t.gridStartOf(startRow, startCol) ||
 			t.gridStartOf(i, endCol)+t.Rows[i].Cells[endCol].gridSpanValue() != t.gridStartOf(startRow, endCol)+t.Rows[startRow].Cells[endCol].gridSpanValue()) {
